@@ -145,8 +145,9 @@ pub fn c06_cases(rng: &mut Rng, tier: &str) -> (Vec<Case>, bool) {
         let mut w = Walk::new(false, false);
         w.op(&analyze_op(&text));
         let ai = w.last();
-        w.start(&text);
+        // the range starts at the entry of the line: a line the interpreter refuses to store (tokenization error) fails there
         let a = w.ops.len();
+        w.start(&text);
         w.start("RUN");
         let mut nr = 0;
         w.drive(&[], &mut nr, 60, false);
